@@ -42,6 +42,69 @@ AddressedDF == APFormats \cup AAFormats
 ShownDF(bytes) == DFOf(bytes)
 ShownICAO(bytes) == IF DFOf(bytes) \in APFormats THEN Syndrome(bytes) ELSE AA(bytes)
 
+(* Does the frame carry a 24-bit address at all?  Every AP format does (the *)
+(* overlay), DF11 and DF17 announce one.  DF18: the AA field exists for the *)
+(* control field values whose ME formats are those of DF17 or TIS-B target  *)
+(* reports (CF 0, 1, 2, 3, 5, 6: an ICAO address, an anonymous / ground     *)
+(* vehicle address or a track-file identifier, all 24 bits in bits 9..32);  *)
+(* CF 4 (TIS-B / ADS-R management) and CF 7 (reserved) define no AA field,  *)
+(* so nothing is required of a record of such a frame.                      *)
+CFOf(bytes) == bytes[1] % 8
+CarriesAddress(bytes) ==
+  \/ DFOf(bytes) \in APFormats \cup {11, 17}
+  \/ DFOf(bytes) = 18 /\ CFOf(bytes) \notin {4, 7}
+
+(* The same remainder computed a byte at a time.  CrcTabSeq[k + 1] is the   *)
+(* remainder of k * x^24 (TableEntry(k) of CRC24.tla, printed by TLC);      *)
+(* MC_ModeSFrame checks all 256 entries against the long division and       *)
+(* FastSyndrome against Syndrome.  (Definitions that depend on RECURSIVE    *)
+(* operators are re-evaluated by TLC at every use, a literal tuple is not;  *)
+(* the bit-serial Syndrome costs 0.3 ms per long frame.)                    *)
+CrcTabSeq == <<
+  0, 16774153, 7195, 16771090, 14390, 16763967, 9261, 16764964,
+  28780, 16745573, 27767, 16750718, 18522, 16759891, 21569, 16752712,
+  57560, 16717009, 64707, 16713930, 55534, 16723175, 50421, 16724220,
+  37044, 16737469, 36015, 16742566, 43138, 16735371, 46233, 16728208,
+  115120, 16659897, 122283, 16656802, 129414, 16649615, 124317, 16650644,
+  111068, 16664021, 110023, 16669134, 100842, 16678371, 103921, 16671224,
+  74088, 16700769, 81267, 16697722, 72030, 16706903, 66885, 16707916,
+  86276, 16688397, 85279, 16693526, 92466, 16686395, 95529, 16679200,
+  230240, 16545641, 237435, 16542578, 244566, 16535391, 239437, 16536388,
+  258828, 16516869, 257815, 16522014, 248634, 16531251, 251681, 16524072,
+  222136, 16553905, 229283, 16550826, 220046, 16560007, 214933, 16561052,
+  201684, 16574429, 200655, 16579526, 207842, 16572395, 210937, 16565232,
+  148176, 16627417, 155339, 16624322, 162534, 16617199, 157437, 16618228,
+  144060, 16631477, 143015, 16636590, 133770, 16645763, 136849, 16638616,
+  172552, 16602625, 179731, 16599578, 170558, 16608823, 165413, 16609836,
+  184932, 16590445, 183935, 16595574, 191058, 16588379, 194121, 16581184,
+  460480, 16315081, 465627, 16314066, 474870, 16304895, 467693, 16307940,
+  489132, 16286373, 486071, 16293566, 478874, 16300691, 479873, 16295560,
+  517656, 16257553, 522755, 16256522, 515630, 16263719, 508469, 16266812,
+  497268, 16278141, 494191, 16285286, 503362, 16276043, 504409, 16270928,
+  444272, 16331641, 449387, 16330594, 458566, 16321359, 451421, 16324436,
+  440092, 16335637, 436999, 16342798, 429866, 16349987, 430897, 16344888,
+  403368, 16372641, 408499, 16371642, 401310, 16378775, 394117, 16381836,
+  415684, 16360397, 412639, 16367574, 421874, 16358395, 422889, 16353248,
+  296352, 16478633, 301499, 16477618, 310678, 16468383, 303501, 16471428,
+  325068, 16449989, 322007, 16457182, 314874, 16464371, 315873, 16459240,
+  288120, 16486769, 293219, 16485738, 286030, 16492871, 278869, 16495964,
+  267540, 16507165, 264463, 16514310, 273698, 16505131, 274745, 16500016,
+  345104, 16429081, 350219, 16428034, 359462, 16418863, 352317, 16421940,
+  341116, 16433269, 338023, 16440430, 330826, 16447555, 331857, 16442456,
+  369864, 16404673, 374995, 16403674, 367870, 16410871, 360677, 16413932,
+  382116, 16392365, 379071, 16399542, 388242, 16390299, 389257, 16385152 >>
+RECURSIVE FastRemFrom(_, _, _)
+FastRemFrom(bytes, i, r) ==
+  IF i > Len(bytes) THEN r
+  ELSE FastRemFrom(bytes, i + 1, ((r % 65536) * 256) ^^ CrcTabSeq[((r \div 65536) ^^ bytes[i]) + 1])
+(* FastRemFrom(b, 1, 0) is the remainder of b * x^24; a frame's last three   *)
+(* bytes are the parity field: Rem(payload * x^24) xor parity field.         *)
+FastSyndrome(bytes) ==
+  LET n == Len(bytes)
+  IN IF n < 3 THEN Syndrome(bytes)
+     ELSE FastRemFrom(SubSeq(bytes, 1, n - 3), 1, 0) ^^ (65536 * bytes[n - 2] + 256 * bytes[n - 1] + bytes[n])
+ShownICAOFast(bytes) == IF DFOf(bytes) \in APFormats THEN FastSyndrome(bytes) ELSE AA(bytes)
+
 (* Text forms as sequences of character codes.                             *)
 HexDigit(n) == IF n < 10 THEN 48 + n ELSE 87 + n          \* lower case
 Hex6(n) == [i \in 1..6 |-> HexDigit((n \div (16 ^ (6 - i))) % 16)]
@@ -187,8 +250,8 @@ ESShapes(df) ==
 
 (* ------------------------------------------------------------------ *)
 (* MB field of Comm-B replies (56 bits): register hypotheses           *)
-(* (Doc 9871 Appendix A: registers 1,0 1,7 1,8 1,9 2,0 3,0 4,0 4,4 4,5 *)
-(* 5,0 6,0)                                                            *)
+(* (Doc 9871 Appendix A: registers 1,0 1,7 1,8 1,9 2,0 2,1 3,0 4,0 4,4 *)
+(* 4,5 5,0 6,0)                                                        *)
 (* ------------------------------------------------------------------ *)
 (* A register with status bits: widths; st = indices of the status bits; *)
 (* data[k] = indices of the fields governed by st[k]; res = reserved     *)
@@ -284,6 +347,16 @@ CommBShapes(df) ==
       b19 == {CommBShape("19", df, <<8, 16, 16, 16>>, NoPins)}
       \* BDS 2,0
       b20 == {win(CommBShape("20", df, <<8>> \o Ident, (1 :> 32)), w3)}
+      \* BDS 2,1: status, 7 characters of registration, status, 2 characters of airline
+      b21 == {CommBShape("21.s" \o Str(a) \o Str(b), df, <<1, 6, 6, 6, 6, 6, 6, 6, 1, 6, 6>>,
+                         Merge((1 :> a) @@ (9 :> b),
+                               Merge(IF a = 0 THEN [i \in 2..8 |-> 0] ELSE NoPins,
+                                     IF b = 0 THEN (10 :> 0) @@ (11 :> 0) ELSE NoPins)))
+                : a \in 0..1, b \in 0..1}
+             \cup {CommBShape("21.reg" \o Str(c), df, <<1, 6, 6, 6, 6, 6, 6, 6, 1, 6, 6>>,
+                               (1 :> 1) @@ (2 :> 6) @@ (3 :> 7) @@ (4 :> 11) @@ (5 :> 24) @@ (6 :> c)
+                               @@ (7 :> 32) @@ (8 :> 32) @@ (9 :> 0) @@ (10 :> 0) @@ (11 :> 0))   \* "FGKX", c, spaces
+                      : c \in {1, 26, 48, 57}}
       \* BDS 3,0: ARA 14 = 1 + 6 + 7, RAC 4, RAT, MTE, TTI 2, TID 26
       b30 == {win(CommBShape("30.tti" \o Str(t), df,
                              <<8, 1, 1, 1, 1, 1, 1, 1, 7, 1, 1, 1, 1, 1, 1, 2>> \o
@@ -309,7 +382,7 @@ CommBShapes(df) ==
                 : tc \in (9..18) \cup (20..22), ac \in AC13Samples}
       ops == {CommBShape(OpName(st, v, z), df, MELayout(31), OpPins(st, v, z))
                 : st \in 0..1, v \in 0..7, z \in 0..1}
-  IN zero \cup fs \cup b10 \cup b17 \cup b18 \cup b19 \cup b20 \cup b30 \cup regs \cup pairs \cup pos \cup ops
+  IN zero \cup fs \cup b10 \cup b17 \cup b18 \cup b19 \cup b20 \cup b21 \cup b30 \cup regs \cup pairs \cup pos \cup ops
 
 AllShapes == BaseShapes \cup ESShapes(17) \cup ESShapes(18) \cup CommBShapes(20) \cup CommBShapes(21)
 
